@@ -207,6 +207,7 @@ def _loop_client_class():
             first = ([p for p in url.split('?')[0].split('/') if p] or [''])[0]
             comp = disp.get_instance(first)
             status, reason, body, ctype = comp.do_get(self._headers(), url, ('127.0.0.1', 40000))
+            SPY.note_peer(body)
             type(self).log.append({'netloc': self._netloc, 'path': url, 'body': None, 'status': status})
             return body
     return LoopSoapClient
@@ -409,7 +410,10 @@ def session():
             if s.requests:
                 r = s.requests[0]
                 SPY.note_peer(b'<broken')
-                s.p_mw.do_post(mk_hdr(), r['path'], ('127.0.0.1', 1), b'<broken')
+                try:
+                    s.p_mw.do_post(mk_hdr(), r['path'], ('127.0.0.1', 1), b'<broken')
+                except Exception:  # noqa: BLE001  (reported by the oracle of run(), not here)
+                    pass
     return _SESSION
 
 
